@@ -716,6 +716,8 @@ namespace
             shapes.push_back({ 3, 2 });
             shapes.push_back({ 3, 4 });
             shapes.push_back({ 4, 4 });
+            shapes.push_back({ 2, 5 });
+            shapes.push_back({ 5, 3 });
         }
         for (int rc : { QUEEN, ROOK, BISHOP })
             for (auto& sh : shapes)
